@@ -55,16 +55,12 @@ func extractWorker() {
 					a.err = src(as.Rhs[0])
 				}
 			}
-			if n := len(cc.Body); n > 0 {
-				switch st := cc.Body[n-1].(type) {
-				case *ast.BranchStmt:
-					a.end = st.Tok.String()
-					if st.Label != nil {
-						a.end += " " + st.Label.Name
-					}
-				case *ast.ReturnStmt:
-					a.end = "return"
-				}
+			if mentions(cc.Body, "progress.Finished") {
+				// the response arm: what it does for a finished and for an
+				// unfinished response, however the two branches are spelled
+				a.end = "finished:" + outcome(cc.Body, true) + ";unfinished:" + outcome(cc.Body, false)
+			} else {
+				a.end = outcome(cc.Body, true)
 			}
 			out = append(out, a)
 		}
@@ -120,7 +116,8 @@ func extractWorker() {
 	l.def("waitExtCancelReports", "Bool", lbool(wait("job.cancelChan", "ErrJobCanceled")), "wait arm on job.cancelChan reports ErrJobCanceled")
 	l.def("waitIntCancelReports", "Bool", lbool(wait("job.internalCancelChan", "ErrJobCanceled")), "wait arm on job.internalCancelChan reports ErrJobCanceled")
 	resp, ok := find("wait", "msgChan")
-	l.def("waitFinishedReports", "Bool", lbool(ok && resp.end == "break Loop" && resp.err == ""), "wait arm on msgChan ends with break Loop (finished response ⇒ nil result)")
+	l.def("waitFinishedReports", "Bool", lbool(ok && resp.end == "finished:break Loop;unfinished:continue Loop" && resp.err == ""),
+		"wait arm on msgChan: a finished response leaves the loop (nil result), an unfinished one keeps waiting")
 	q, ok := find("wait", "quit")
 	l.def("waitQuitReturns", "Bool", lbool(ok && q.end == "return"), "wait arm on quit returns")
 	rq, ok := find("report", "quit")
@@ -142,6 +139,60 @@ func extractWorker() {
 	}
 	l.def("exitAfterDisconnect", "Bool", lbool(exitAfter), "Run returns after handing off an ErrPeerDisconnected result")
 	facts["worker"] = shape
+}
+
+// mentions reports whether the statements refer to expr textually.
+func mentions(stmts []ast.Stmt, expr string) bool {
+	for _, st := range stmts {
+		if strings.Contains(src(st), expr) {
+			return true
+		}
+	}
+	return false
+}
+
+// outcome follows a statement list to the jump that ends it (break / break L /
+// continue / continue L / return) or "fall" when it runs off the end, taking
+// `if progress.Finished` / `if !progress.Finished` according to finished.  An
+// if on anything else is skipped when neither branch jumps, and makes the
+// outcome "?" (unknown shape, the fact fails) when one does.
+func outcome(stmts []ast.Stmt, finished bool) string {
+	for _, st := range stmts {
+		switch v := st.(type) {
+		case *ast.BranchStmt:
+			e := v.Tok.String()
+			if v.Label != nil {
+				e += " " + v.Label.Name
+			}
+			return e
+		case *ast.ReturnStmt:
+			return "return"
+		case *ast.IfStmt:
+			cond := strings.Join(strings.Fields(src(v.Cond)), "")
+			var els []ast.Stmt
+			if b, ok := v.Else.(*ast.BlockStmt); ok {
+				els = b.List
+			} else if v.Else != nil {
+				els = []ast.Stmt{v.Else}
+			}
+			switch cond {
+			case "progress.Finished", "!progress.Finished":
+				take := finished == (cond == "progress.Finished")
+				br := els
+				if take {
+					br = v.Body.List
+				}
+				if o := outcome(br, finished); o != "fall" {
+					return o
+				}
+			default:
+				if outcome(v.Body.List, finished) != "fall" || outcome(els, finished) != "fall" {
+					return "?"
+				}
+			}
+		}
+	}
+	return "fall"
 }
 
 func strq(s string) string { return "\"" + strings.ReplaceAll(s, "\"", "\\\"") + "\"" }
